@@ -138,6 +138,9 @@ func c18GenCase(r *Rng, adversarial bool) c18Case {
 	return c
 }
 
+func c18Path(i int) string   { return fmt.Sprintf("/p%d", i/3) }
+func c18Method(i int) string { return []string{"DELETE", "GET", "POST"}[i%3] }
+
 func c18Doc(c c18Case) J {
 	paths := J{}
 	for i, o := range c.Ops {
@@ -145,7 +148,9 @@ func c18Doc(c c18Case) J {
 		if o != nil {
 			op["security"] = c18ReqsJSON(*o)
 		}
-		paths[fmt.Sprintf("/p%d", i)] = J{"get": op}
+		// three operations share a path item, in the order their methods are walked (DELETE, GET, POST): what one
+		// operation declares must not reach its neighbours
+		getJ(paths, c18Path(i))[strings.ToLower(c18Method(i))] = op
 	}
 	doc := J{"openapi": "3.0.3", "info": J{"title": "t", "version": "1"}, "paths": paths}
 	if c.Global != nil {
@@ -603,7 +608,7 @@ func c18Run(ctx *Ctx, ndocs int) error {
 			continue
 		}
 		for i := range k.c.Ops {
-			resp, err := k.p.Call(J{"do": "serve", "req": J{"method": "GET", "url": fmt.Sprintf("http://h/p%d", i)}, "opt": J{"sel": 0, "status": 200}})
+			resp, err := k.p.Call(J{"do": "serve", "req": J{"method": c18Method(i), "url": "http://h" + c18Path(i)}, "opt": J{"sel": 0, "status": 200}})
 			if err != nil {
 				return err
 			}
